@@ -129,8 +129,12 @@ impl TlsRecordsParser {
             Err(Err::Error(e)) | Err(Err::Failure(e)) if e.code == ErrorKind::Complete => {
                 Err(Err::Incomplete(Needed::Unknown))
             }
-            // other errors
-            other => other,
+            Err(Err::Incomplete(n)) => Err(Err::Incomplete(n)),
+            // other errors: the accumulated payload is malformed, defragmentation ends here
+            other => {
+                self.current_record_type = None;
+                other
+            }
         }
     }
 }
